@@ -283,7 +283,8 @@ func submitOp(kind opKind, reduced bool, names ...string) *opDef {
 //   - remote singles: A with all four nonces at price 1 plus the prices that decide a replacement
 //     (A0p2, A0p100, A1p100); B with nonces 0..2 at price 1 and one expensive B0p100; L once as a
 //     remote sender (L0p1, later migrated to local);
-//   - AddLocal: L0..L2 at price 1 and L1p100 (local queue beyond the per-account cap, local replacement);
+//   - AddLocal: L0..L2 at price 1 and L1p100 (local queue beyond the per-account cap, local replacement),
+//     and A1p1 (a remote sender turns local; a local's cheaper same-nonce transaction);
 //   - one big-gas token (A0p1g: same-price replacement, victim of the gas-limit drop), one
 //     unaffordable and one over-gas token (always rejected); the other pure-rejection tokens
 //     (wrong chain id, oversized, gas below intrinsic, bump boundary 105/110) cannot change the state
@@ -295,7 +296,7 @@ func submitOp(kind opKind, reduced bool, names ...string) *opDef {
 var reducedAlphabet = []string{
 	"R(A0p1)", "R(A1p1)", "R(A2p1)", "R(A3p1)", "R(A0p2)", "R(A0p100)", "R(A1p100)",
 	"R(B0p1)", "R(B1p1)", "R(B2p1)", "R(B0p100)", "R(L0p1)",
-	"L(L0p1)", "L(L1p1)", "L(L2p1)", "L(L1p100)",
+	"L(L0p1)", "L(L1p1)", "L(L2p1)", "L(L1p100)", "L(A1p1)",
 	"R(A0p1g)", "R(A1p2$)", "R(A1p2G)",
 	"R[A0p1,A1p1]", "R[A2p1,A3p1]", "R[B0p1,B1p1]", "R[B0p100,B1p100]", "R[A1p1,B1p1]", "R[A0p1,A0p2]",
 	"L[L0p1,L1p1]", "L[L2p1,L3p1]",
